@@ -232,4 +232,4 @@ def is_exc(rec, name=None):
     return name is None or name in rec.get("mro", ())
 
 
-EXACT_TYPES = ("Decimal", "Fraction")
+EXACT_TYPES = ("Decimal", "Fraction", "int")  # any exact rational type
